@@ -125,6 +125,9 @@ def main(argv=None):
     ap.add_argument('-v', '--verbose', action='store_true')
     args = ap.parse_args(argv)
     seed = int(os.environ.get('VERIF_SEED', '0'))
+    if os.environ.get('VERIF_DEBUG_HANG'):
+        import faulthandler
+        faulthandler.dump_traceback_later(int(os.environ['VERIF_DEBUG_HANG']), exit=True)
     os.chdir(ROOT)
     os.makedirs('evidence', exist_ok=True)
     os.makedirs('replays', exist_ok=True)
